@@ -128,6 +128,76 @@ def program(fn: ast.FunctionDef) -> str:
     o = ", ".join(lstr(x) for x in outputs)
     return f"{{ series := [\n      {s}],\n    products := [\n      {p}],\n    outputs := [{o}] }}"
 
+
+# ---------------------------------------------------------------- JSON form of the same grammar (for the driver's `prog` command)
+def flag_j(node):
+    if isinstance(node, ast.Name): return {"kind": "name", "s": node.id}
+    if (isinstance(node, ast.Subscript) and isinstance(node.value, ast.Name) and ast.unparse(node.slice) == "index[0]"):
+        return {"kind": "indexed", "s": node.value.id}
+    raise TranslateError(f"unsupported flag: {ast.unparse(node)}")
+
+def expr_j(node):
+    if isinstance(node, ast.Constant) and isinstance(node.value, str): return {"op": "ser", "x": node.value}
+    if isinstance(node, ast.Attribute) and node.attr == "adj" and isinstance(node.value, ast.Constant) and isinstance(node.value.value, str):
+        return {"op": "adj", "x": node.value.value}
+    if isinstance(node, ast.Name) and node.id == "zero": return {"op": "zero"}
+    if isinstance(node, ast.UnaryOp) and isinstance(node.op, ast.USub): return {"op": "neg", "e": expr_j(node.operand)}
+    if isinstance(node, ast.BinOp):
+        if isinstance(node.op, ast.Add): return {"op": "add", "a": expr_j(node.left), "b": expr_j(node.right)}
+        if isinstance(node.op, ast.Sub): return {"op": "sub", "a": expr_j(node.left), "b": expr_j(node.right)}
+        if isinstance(node.op, ast.Div): return {"op": "divInt", "e": expr_j(node.left), "k": const_int(node.right)}
+    if isinstance(node, ast.IfExp): return {"op": "ite", "flag": flag_j(node.test), "t": expr_j(node.body), "e": expr_j(node.orelse)}
+    if isinstance(node, ast.Call) and isinstance(node.func, ast.Name) and len(node.args) == 1 and not node.keywords:
+        a = node.args[0]
+        if isinstance(a, ast.Constant) and isinstance(a.value, str): return {"op": "callSer", "f": node.func.id, "x": a.value}
+        return {"op": "callExpr", "f": node.func.id, "e": expr_j(a)}
+    raise TranslateError(f"unsupported expression: {ast.unparse(node)}")
+
+def program_j(fn: ast.FunctionDef):
+    series, products, outputs = [], [], None
+    for node in fn.body:
+        if isinstance(node, ast.With):
+            if len(node.items) != 1 or not isinstance(node.items[0].context_expr, ast.Constant):
+                raise TranslateError(f"unsupported with-item: {ast.unparse(node.items[0])}")
+            name = node.items[0].context_expr.value
+            if "@" in name:
+                herm = False
+                for b in node.body:
+                    if isinstance(b, ast.Pass): continue
+                    if isinstance(b, ast.Expr) and isinstance(b.value, ast.Name) and b.value.id == "hermitian": herm = True; continue
+                    raise TranslateError(f"unsupported statement in product {name}: {ast.unparse(b)}")
+                products.append({"terms": name.split(" @ "), "hermitian": herm}); continue
+            st, body = {"kind": "none"}, []
+            for b in node.body:
+                if isinstance(b, ast.Assign):
+                    if len(b.targets) != 1 or not isinstance(b.targets[0], ast.Name) or b.targets[0].id != "start" or not isinstance(b.value, ast.Constant):
+                        raise TranslateError(f"unsupported assignment in {name}: {ast.unparse(b)}")
+                    v = b.value.value
+                    if v == 0 and not isinstance(v, bool): st = {"kind": "zero"}
+                    elif v == 1 and not isinstance(v, bool): st = {"kind": "one"}
+                    elif isinstance(v, str) and v.endswith("_0"): st = {"kind": "input", "x": v[:-2]}
+                    else: raise TranslateError(f"unsupported start value: {v!r}")
+                elif isinstance(b, ast.Pass): pass
+                elif isinstance(b, ast.Expr) and isinstance(b.value, ast.Name) and b.value.id in ("hermitian", "antihermitian"):
+                    body.append({"kind": "marker", "anti": b.value.id == "antihermitian"})
+                elif isinstance(b, ast.If):
+                    if not isinstance(b.test, ast.Name) or b.test.id not in CONDS or b.orelse or len(b.body) != 1 or not isinstance(b.body[0], ast.Expr):
+                        raise TranslateError(f"unsupported condition in {name}: {ast.unparse(b)}")
+                    body.append({"kind": "clause", "cond": b.test.id, "expr": expr_j(b.body[0].value)})
+                elif isinstance(b, ast.Expr): body.append({"kind": "clause", "cond": "default", "expr": expr_j(b.value)})
+                else: raise TranslateError(f"unsupported statement in {name}: {ast.unparse(b)}")
+            series.append({"name": name, "start": st, "body": body})
+        elif isinstance(node, ast.Return):
+            v = node.value; elts = v.elts if isinstance(v, ast.Tuple) else [v]; outputs = [e.value for e in elts]
+        elif isinstance(node, ast.Expr) and isinstance(node.value, ast.Constant): continue
+        else: raise TranslateError(f"unsupported top-level statement: {ast.unparse(node)}")
+    if outputs is None: raise TranslateError("missing return")
+    return {"series": series, "products": products, "outputs": outputs}
+
+def program_json_from_source(src: str, name: str):
+    fns = {n.name: n for n in ast.parse(src).body if isinstance(n, ast.FunctionDef)}
+    return program_j(fns[name])
+
 def main(repo: str, out: str) -> None:
     src = pathlib.Path(repo, "pymablock", "algorithms.py").read_text()
     tree = ast.parse(src)
